@@ -150,7 +150,13 @@ impl<'a> Read for ZipFileReader<'a> {
             #[cfg(feature = "bzip2")]
             ZipFileReader::Bzip2(r) => r.read(buf),
             #[cfg(feature = "zstd")]
-            ZipFileReader::Zstd(r) => r.read(buf),
+            ZipFileReader::Zstd(r) => {
+                // the zstd decoder reports "no progress" for an empty output buffer
+                if buf.is_empty() {
+                    return Ok(0);
+                }
+                r.read(buf)
+            }
         }
     }
 }
